@@ -6,6 +6,7 @@ import (
 	"go/constant"
 	"go/token"
 	"go/types"
+	"golang.org/x/tools/go/cfg"
 	"sort"
 	"strings"
 
@@ -276,7 +277,7 @@ func c07r2r3(c *core.Ctx) {
 				if !fc.Pre() {
 					what = "batch event (dispatched row by row in a loop)"
 				}
-				if s.held == "" && heldByAllCallers(c, a, f, 0) {
+				if s.held == "" && heldByAllCallers(c, a, f, call, 0) {
 					c.OK("C07/R2", key, c.At(call.Pos()), what+" dispatched in a helper whose every call site lies between acquire and release")
 				} else if s.held == "" {
 					c.Violation("C07/R2", key, c.At(call.Pos()), fmt.Sprintf("%s dispatches %s %s while the world is not locked by this operation", f.Name, what, fc.Event))
@@ -302,7 +303,7 @@ func c07r2r3(c *core.Ctx) {
 					return
 				}
 				key := fmt.Sprintf("%s calls %s in row loop", f.Name, v.Name())
-				if s.held == "" && heldByAllCallers(c, a, f, 0) {
+				if s.held == "" && heldByAllCallers(c, a, f, call, 0) {
 					c.OK("C07/R2", key, c.At(call.Pos()), "batch callback invoked in a helper whose every call site lies between acquire and release")
 				} else if s.held == "" {
 					c.Violation("C07/R2", key, c.At(call.Pos()), fmt.Sprintf("%s invokes user callback %s in a loop over rows without holding the world lock", f.Name, v.Name()))
@@ -347,6 +348,78 @@ func c07r2r3(c *core.Ctx) {
 		flows := 0
 		ok := true
 		detail := ""
+		// sinks: the calls in function g that receive the value (isValue) as an argument
+		var sinks func(g *core.Func, isValue func(ast.Expr) bool)
+		sinks = func(g *core.Func, isValue func(ast.Expr) bool) {
+			core.InspectNoLits(g.Body, func(n ast.Node) bool {
+				call, isCall := n.(*ast.CallExpr)
+				if !isCall {
+					return true
+				}
+				for i, arg := range call.Args {
+					if !isValue(ast.Unparen(arg)) {
+						continue
+					}
+					flows++
+					k, cal, _ := m.Callee(call)
+					if k != core.CallStatic {
+						ok = false
+						detail = "flows into a non-static call"
+						continue
+					}
+					if !paramInvokedUnderLock(c, a, cal, i, 0) {
+						ok = false
+						detail = fmt.Sprintf("parameter %d of %s is not invoked under the world lock", i, cal.Name)
+					}
+				}
+				return true
+			})
+		}
+		// a builder that returns the literal (directly or through its holder): the value continues at every call site
+		// of the builder, passed on directly or through the local that receives it
+		returned := false
+		core.InspectNoLits(parent.Body, func(n ast.Node) bool {
+			if rs, isR := n.(*ast.ReturnStmt); isR {
+				for _, r := range rs.Results {
+					r = ast.Unparen(r)
+					if r == ast.Expr(f.Lit) {
+						returned = true
+					}
+					if id, isID := r.(*ast.Ident); isID && holder != nil && m.Info.ObjectOf(id) == holder {
+						returned = true
+					}
+				}
+			}
+			return true
+		})
+		if returned && parent.Lit == nil {
+			for _, cs := range m.CallSites() {
+				if cs.Callee != parent {
+					continue
+				}
+				bcall := cs.Call
+				var h2 *types.Var
+				core.InspectNoLits(cs.Caller.Body, func(n ast.Node) bool {
+					if as, isAs := n.(*ast.AssignStmt); isAs {
+						for i, r := range as.Rhs {
+							if ast.Unparen(r) == ast.Expr(bcall) && i < len(as.Lhs) && len(as.Lhs) == len(as.Rhs) {
+								if id, isID := ast.Unparen(as.Lhs[i]).(*ast.Ident); isID {
+									h2, _ = m.Info.ObjectOf(id).(*types.Var)
+								}
+							}
+						}
+					}
+					return true
+				})
+				sinks(cs.Caller, func(e ast.Expr) bool {
+					if e == ast.Expr(bcall) {
+						return true
+					}
+					id, isID := e.(*ast.Ident)
+					return isID && h2 != nil && m.Info.ObjectOf(id) == h2
+				})
+			}
+		}
 		core.InspectNoLits(parent.Body, func(n ast.Node) bool {
 			call, isCall := n.(*ast.CallExpr)
 			if !isCall {
@@ -456,7 +529,8 @@ func c07r5(c *core.Ctx) {
 	a := GetAnchors(c)
 	m := c.M
 	bitTest := func(ff *core.Func, at core.Atom, wantTruth bool) bool {
-		call, ok := ast.Unparen(at.Expr).(*ast.CallExpr)
+		// (the test may be taken into a local first: locked := m.locks.Get(l); if locked {..})
+		call, ok := ast.Unparen(m.InlineLocals(at.Expr)).(*ast.CallExpr)
 		if !ok || len(call.Args) != 1 {
 			return false
 		}
@@ -985,7 +1059,7 @@ func factsKey(f core.Facts) string {
 
 // heldByAllCallers: f is unexported and every static call site of f is reached with a token held
 // (directly, or in a caller that itself satisfies this).
-func heldByAllCallers(c *core.Ctx, a *Anchors, f *core.Func, depth int) bool {
+func heldByAllCallers(c *core.Ctx, a *Anchors, f *core.Func, site ast.Node, depth int) bool {
 	m := c.M
 	if f.Exported() || f.Lit != nil || depth > 3 {
 		return false
@@ -1013,11 +1087,154 @@ func heldByAllCallers(c *core.Ctx, a *Anchors, f *core.Func, depth int) bool {
 			}
 			if k, cal, _ := m.Callee(call); k == core.CallStatic && cal == f {
 				sites++
-				if s.held == "" && !heldByAllCallers(c, a, g, depth+1) {
-					ok = false
+				if s.held == "" && !heldByAllCallers(c, a, g, call, depth+1) {
+					// a call outside the lock is harmless when what is known at the call (the branch conditions
+					// on the way to it) contradicts a condition under which the site in f runs:
+					// `if !hasObs && fn == nil { f(fn, hasObs); return }` never reaches `if fn != nil { fn(..) }`
+					if site == nil || !unreachableUnder(m, g, call, f, site) {
+						ok = false
+					}
 				}
 			}
 		})
 	}
 	return sites > 0 && ok
+}
+
+// knownAtoms returns what the branch conditions passed on every path to node say about nil tests and boolean
+// variables: key "<expr>==nil" or "<expr>" (rendered, conversions and naming locals resolved) -> truth.
+func knownAtoms(m *core.Model, f *core.Func, node ast.Node) map[string]bool {
+	g := m.CFG(f)
+	if g == nil || len(g.Blocks) == 0 {
+		return nil
+	}
+	norm := func(a core.Atom) (string, bool, bool) {
+		e := ast.Unparen(a.Expr)
+		if be, ok := e.(*ast.BinaryExpr); ok && (be.Op == token.EQL || be.Op == token.NEQ) {
+			x, y := ast.Unparen(be.X), ast.Unparen(be.Y)
+			if id, ok := x.(*ast.Ident); ok && id.Name == "nil" {
+				x, y = y, x
+			}
+			if id, ok := y.(*ast.Ident); ok && id.Name == "nil" {
+				return m.ExprString(x) + "==nil", a.Truth == (be.Op == token.EQL), true
+			}
+			return "", false, false
+		}
+		if t := m.Info.TypeOf(e); t != nil {
+			if b, ok := t.Underlying().(*types.Basic); ok && b.Info()&types.IsBoolean != 0 {
+				switch e.(type) {
+				case *ast.Ident, *ast.SelectorExpr:
+					return m.ExprString(e), a.Truth, true
+				}
+			}
+		}
+		return "", false, false
+	}
+	type st = map[string]bool
+	fr := core.Forward(g, core.Flow[st]{
+		Entry: st{},
+		Join: func(a, b st) st {
+			out := st{}
+			for k, v := range a {
+				if w, ok := b[k]; ok && w == v {
+					out[k] = v
+				}
+			}
+			return out
+		},
+		Equal: func(a, b st) bool {
+			if len(a) != len(b) {
+				return false
+			}
+			for k, v := range a {
+				if w, ok := b[k]; !ok || w != v {
+					return false
+				}
+			}
+			return true
+		},
+		Node: func(s st, _ *cfg.Block, _ ast.Node) st { return s },
+		Edge: func(s st, b *cfg.Block, succ int) (st, bool) {
+			c := core.BlockCond(b)
+			if c == nil {
+				return s, true
+			}
+			out := st{}
+			for k, v := range s {
+				out[k] = v
+			}
+			for _, a := range core.Assume(c, succ == 0) {
+				if k, v, ok := norm(a); ok {
+					out[k] = v
+				}
+			}
+			return out, true
+		},
+	})
+	for _, b := range g.Blocks {
+		if !fr.Reached[b] {
+			continue
+		}
+		for _, n := range b.Nodes {
+			if n.Pos() <= node.Pos() && node.End() <= n.End() {
+				return fr.In[b]
+			}
+		}
+	}
+	return nil
+}
+
+// unreachableUnder: the facts known at `call` (in caller), translated to f's parameters, contradict a condition that
+// holds on every path to `site` in f.
+func unreachableUnder(m *core.Model, caller *core.Func, call *ast.CallExpr, f *core.Func, site ast.Node) bool {
+	if f.Sig == nil || f.Sig.Params().Len() != len(call.Args) || f.Sig.Variadic() {
+		return false
+	}
+	at := knownAtoms(m, caller, call)
+	if len(at) == 0 {
+		return false
+	}
+	facts := map[string]bool{}
+	for i, a := range call.Args {
+		pn := f.Sig.Params().At(i).Name()
+		as := m.ExprString(ast.Unparen(a))
+		if v, ok := at[as+"==nil"]; ok {
+			facts[pn+"==nil"] = v
+		}
+		if v, ok := at[as]; ok {
+			facts[pn] = v
+		}
+		// a constant argument is a fact as well
+		if b, ok := m.ConstBool(a); ok {
+			facts[pn] = b
+		}
+		if id, ok := ast.Unparen(a).(*ast.Ident); ok && id.Name == "nil" {
+			facts[pn+"==nil"] = true
+		}
+	}
+	if len(facts) == 0 {
+		return false
+	}
+	// parameters that f itself re-assigns cannot be reasoned about
+	reassigned := map[string]bool{}
+	core.InspectNoLits(f.Body, func(n ast.Node) bool {
+		if as, ok := n.(*ast.AssignStmt); ok {
+			for _, l := range as.Lhs {
+				if id, ok := ast.Unparen(l).(*ast.Ident); ok {
+					reassigned[id.Name] = true
+				}
+			}
+		}
+		return true
+	})
+	for k, v := range knownAtoms(m, f, site) {
+		name := strings.TrimSuffix(k, "==nil")
+		if reassigned[name] {
+			continue
+		}
+		if w, ok := facts[k]; ok && w != v {
+			return true
+		}
+	}
+	return false
 }
